@@ -6,6 +6,7 @@ from prysm.mathops import np  # NOQA
 from prysm.coordinates import optimize_xy_separable
 
 from .dickson import dickson2_seq
+from .jacobi import _as_sequence
 
 
 def xy_j_to_mn(j):
@@ -109,6 +110,7 @@ def xy_seq(mns, x, y, cartesian_grid=True):
         list of modes, in the same order as mns
 
     """
+    mns = _as_sequence(mns)  # any iterable of (m, n), also a generator
     mns2 = truenp.asarray(mns)
     maxm, maxn = mns2.max(axis=0)
 
